@@ -85,7 +85,19 @@ func c19Restorable(c *Ctx, ms map[string]*fsmx.Machine) {
 	finListOK := false
 	if finList != nil && len(finList.Blocks) > 0 {
 		finListOK = rangeSources(finList)["fin"]
-		if n := len(ssax.Conds(finList)); finListOK && n != 1 {
+		n := 0
+		for _, cd := range ssax.Conds(finList) {
+			// (an early exit for an empty set — len(f.finStates) compared with 0 — filters nothing)
+			px, py := ssax.Path(cd.X), ""
+			if cd.Y != nil {
+				py = ssax.Path(cd.Y)
+			}
+			if (strings.HasPrefix(px, "len(") && strings.Contains(px, ".finStates")) || (strings.HasPrefix(py, "len(") && strings.Contains(py, ".finStates")) {
+				continue
+			}
+			n++
+		}
+		if finListOK && n != 1 {
 			r.Unknown("C19/R1", "fsm.(*FSM).FinStatesList:shape", "FinStatesList returns every finish state (a plain loop over f.finStates)", c.Pos(finList.Pos()),
 				sprintf("the function has %d branches; a filter would leave finish states unregistered", n))
 			finListOK = false
@@ -104,6 +116,21 @@ func c19Restorable(c *Ctx, ms map[string]*fsmx.Machine) {
 	}
 	// (c) acceptance by MustCopyWithState
 	acceptSources := len(ssax.CallsTo(copyWith, load.Module+"/fsm/fsm.(FSM).StatesList")) > 0
+	if !acceptSources {
+		// membership tested directly on the transitions: `for k := range f.transitions { if k.source == state {…} }`
+		for _, cd := range ssax.Conds(copyWith) {
+			if cd.Op != token.EQL && cd.Op != token.NEQ || cd.Y == nil {
+				continue
+			}
+			px, py := ssax.Path(cd.X), ssax.Path(cd.Y)
+			isSrc := func(p string) bool {
+				return strings.Contains(p, "range(") && strings.Contains(p, ".transitions)") && strings.HasSuffix(p, ".source")
+			}
+			if (isSrc(px) && py == "state") || (isSrc(py) && px == "state") {
+				acceptSources = true
+			}
+		}
+	}
 	acceptFin := len(ssax.CallsTo(copyWith, load.Module+"/fsm/fsm.(FSM).IsFinState")) > 0
 	// the fin acceptance must be able to set `exists` – i.e. it must not be on a path that panics anyway: the panic call
 	// must be unreachable from the true edge of IsFinState
@@ -118,6 +145,44 @@ func c19Restorable(c *Ctx, ms map[string]*fsmx.Machine) {
 	if !acceptSources {
 		r.Unknown("C19/R1", "fsm.(*FSM).MustCopyWithState:shape", "MustCopyWithState accepts the states of StatesList()", c.Pos(copyWith.Pos()), "no call to StatesList")
 		return
+	}
+	// (c') an accepted state is also INSTALLED: every return of MustCopyWithState lies behind `currentState = state`,
+	// or behind a test that says there is nothing to install (state == "" / state == currentState)
+	{
+		var stores []ssa.Instruction
+		ssax.Instrs(copyWith, func(in ssa.Instruction) {
+			if st, ok := in.(*ssa.Store); ok {
+				if fa, ok := st.Addr.(*ssa.FieldAddr); ok && ssax.FieldOf(fa) != nil && ssax.FieldOf(fa).Name() == "currentState" && ssax.Path(st.Val) == "state" {
+					stores = append(stores, in)
+				}
+			}
+		})
+		var nothing []ssax.Edge
+		for _, cd := range ssax.Conds(copyWith) {
+			if (cd.Op != token.EQL && cd.Op != token.NEQ) || cd.Y == nil {
+				continue
+			}
+			px, py := ssax.Path(cd.X), ssax.Path(cd.Y)
+			other := ""
+			if px == "state" {
+				other = py
+			} else if py == "state" {
+				other = px
+			}
+			if k, isC := ssax.ConstString(cd.Y); (isC && k == "" && px == "state") || strings.HasSuffix(other, ".currentState") {
+				if e, ok := cd.EdgeWhere(token.EQL); ok {
+					nothing = append(nothing, e)
+				}
+			}
+		}
+		bad := ""
+		for _, ret := range ssax.Returns(copyWith) {
+			if ssax.ReachableAvoiding(copyWith, ret, nothing, stores) {
+				bad = c.PosOf(ret)
+			}
+		}
+		r.Check(len(stores) > 0 && bad == "", "C19/R1", "fsm.(*FSM).MustCopyWithState:installs-state", "every accepted state is installed as the machine's current state", c.Pos(copyWith.Pos()),
+			"the return at "+bad+" is reachable without `currentState = state`: a round dumped in such a state is restored without error but sits in the machine's initial state")
 	}
 	// (d) registration by fsm_pool.Init
 	regSources, regFin := false, false
@@ -295,6 +360,11 @@ func c19Payload(c *Ctx) {
 					}
 				}
 				if fa, ok := addr.(*ssa.FieldAddr); ok && ssax.OwnerName(fa) == "FSM" {
+					// an observer hook — a func-typed field without results (a listener for logging/metrics) — cannot feed
+					// anything back into the machine: it is not state that a restore would have to bring back
+					if sig, isFn := ssax.FieldOf(fa).Type().Underlying().(*types.Signature); isFn && sig.Results().Len() == 0 {
+						return
+					}
 					written[ssax.FieldOf(fa).Name()] = append(written[ssax.FieldOf(fa).Name()], fn.Name())
 				}
 			})
